@@ -115,6 +115,8 @@ type c15case struct {
 	Spelling string            `json:"spelling"`
 	Files    map[string]string `json:"files,omitempty"`
 	Canary   bool              `json:"canary,omitempty"`
+	// ParseAs: the referring template is not loaded but handed to Set.Parse under this (unclean, possibly relative) name
+	ParseAs string `json:"referrer_parsed_as,omitempty"`
 }
 
 const c15canaryToken = "CANARY-7731-OUTSIDE-ROOT"
@@ -208,6 +210,23 @@ func c15run(c *fw.Ctx, idx int) {
 	if cs.Entry != "get" {
 		files[refPath] = c15refBody(cs.Entry, sp)
 	}
+	if cs.Entry != "get" && r.Intn(4) == 0 {
+		// Set.Parse(name, source): the name resolves against the root like any other, relative or not
+		as := refPath
+		switch r.Intn(4) {
+		case 0:
+			as = strings.TrimPrefix(refPath, "/")
+		case 1:
+			as = "../" + strings.TrimPrefix(refPath, "/")
+		case 2:
+			as = c15decorate(r, strings.TrimPrefix(refPath, "/"))
+		case 3:
+			as = c15decorate(r, refPath)
+		}
+		if c15canon("/", as) == refPath && path.Base(as) == path.Base(refPath) { // Set.Parse rejects names without a base name
+			cs.ParseAs = as
+		}
+	}
 	cs.Files = files
 	c.Begin(idx, cs)
 	defer c.End()
@@ -242,6 +261,13 @@ func c15run(c *fw.Ctx, idx int) {
 			tmplName = t.Name
 			res = jx.Exec(t, vars, nil)
 		}
+	} else if cs.ParseAs != "" {
+		t, err, pan := jx.Parse(set, cs.ParseAs, files[refPath])
+		res = jx.Res{ParseErr: err, Panic: pan}
+		if err == nil && pan == nil {
+			res = jx.Exec(t, vars, sp)
+		}
+		c.Count("referrers_given_to_Set.Parse", 1)
 	} else {
 		t, err, pan := jx.Get(set, refBase)
 		res = jx.Res{ParseErr: err, Panic: pan}
@@ -276,7 +302,7 @@ func c15run(c *fw.Ctx, idx int) {
 		return
 	}
 	// 2. the loader was probed for exactly the canonical path + extensions in order
-	if cs.Entry != "get" {
+	if cs.Entry != "get" && cs.ParseAs == "" {
 		if len(exists) == 0 || exists[0] != refPath {
 			c.Violation(sig("referrer-lookup"), "", fmt.Sprintf("Exists calls %v, expected to start with %q", exists, refPath))
 			return
